@@ -69,8 +69,16 @@ func resolveTypes(c *Cfg, ns, rel string, depth int, out map[string]bool) bool {
 	for _, t := range rd.Types {
 		if t.Rel == "" {
 			out[t.NS] = true
-		} else if !resolveTypes(c, t.NS, t.Rel, depth-1, out) {
-			return false
+		} else {
+			// A traverse evaluates the computed relation on the subject set's OWN
+			// namespace and object (that is what the engine looks up), and the
+			// documented rule speaks of the element types of T.R: a well-typed
+			// traverse needs the relation on both (keto checks both since the
+			// F-C11-subjectset-traverse fix; before, only the element types).
+			out[t.NS] = true
+			if !resolveTypes(c, t.NS, t.Rel, depth-1, out) {
+				return false
+			}
 		}
 	}
 	return true
@@ -571,9 +579,25 @@ func TestC11(t *testing.T) {
 		run.begin(idx, "", cc)
 		verdict := "ok"
 		if te := cfgTypeErrors(cc.Cfg); te != nil {
-			run.inconclusive(fmt.Sprintf("C11 idx %d: generator produced an ill-typed configuration: %v", idx, te))
-			run.end(idx, "", "generator-error")
-			continue
+			if cc.Variant == "focus" {
+				// The focus shape without the traversed name on the subject set's own
+				// namespace: the engine cannot evaluate it ("relation does not exist"
+				// at check time), so an accepted document of this shape is the
+				// F-C11-subjectset-traverse defect. Judge it by running the checks
+				// below when keto accepts it; a rejection is the required behaviour.
+				if _, errs, _, _, pt := c12Parse(cc.Text, 20_000_000); pt == "" && len(errs) > 0 {
+					run.eval(1)
+					run.count("focus_engine_ill_typed_rejected", 1)
+					run.nontrivial(fmt.Sprintf("%d/focus-rejected", idx))
+					run.end(idx, "", "ok")
+					continue
+				}
+				run.count("focus_engine_ill_typed_accepted", 1)
+			} else {
+				run.inconclusive(fmt.Sprintf("C11 idx %d: generator produced an ill-typed configuration: %v", idx, te))
+				run.end(idx, "", "generator-error")
+				continue
+			}
 		}
 		for _, tp := range cc.tuples {
 			if !conforms(cc.Cfg, tp) {
